@@ -1,0 +1,56 @@
+//go:build verif
+
+// Contracts for govc (see /verif/DESIGN.md). Comment-only; compiled only with -tags verif.
+
+package textractspecial
+
+//@ property C15 C07
+
+//@ pure func tableok(t []bool) bool := t == nil || len(t) == 256
+
+//@ func matchValidCharsFromStart(s string, validChars []bool) int
+//@   requires len(validChars) == 256
+//@   ensures  0 <= result && result <= len(s) && (forall i int :: 0 <= i && i < result ==> validChars[s[i]]) && (result == len(s) || !validChars[s[result]])
+//@   loop 1: invariant 0 <= i && i <= len(s) && forall k int :: 0 <= k && k < i ==> validChars[s[k]]
+//@   loop 1: decreases len(s) - i
+
+//@ func matchValidCharsFromEnd(s string, validChars []bool) int
+//@   requires len(validChars) == 256
+//@   ensures  0 <= result && result <= len(s) && (forall i int :: result <= i && i < len(s) ==> validChars[s[i]]) && (result == 0 || !validChars[s[result-1]])
+//@   loop 1: invariant -1 <= i && i < len(s) && forall k int :: i < k && k < len(s) ==> validChars[s[k]]
+//@   loop 1: decreases i + 1
+
+// the label is trimmed of bytes <= 0x20 at both ends; total: no precondition on s
+//@ func trimControlCharsAndSpaces(s string) string
+//@   ensures  arr(result) === arr(s) && off(s) <= off(result) && off(result) + len(result) <= off(s) + len(s)
+//@   ensures[trimmed] len(result) > 0 ==> result[0] > 32 && result[len(result)-1] > 32
+//@   ensures[only-blanks-removed] forall p int :: off(s) <= p && p < off(s) + len(s) && (p < off(result) || p >= off(result) + len(result)) ==> at(s, p) <= 32 || len(result) == 0
+//@   loop 1: invariant 0 <= istart && istart <= len(s) && forall k int :: 0 <= k && k < istart ==> s[k] <= 32
+//@   loop 1: decreases len(s) - istart
+//@   loop 2: invariant istart - 1 <= iend && iend < len(s) && 0 <= istart && istart <= len(s) && (forall k int :: iend < k && k < len(s) ==> s[k] <= 32) && (forall k int :: 0 <= k && k < istart ==> s[k] <= 32) && (istart < len(s) ==> s[istart] > 32)
+//@   loop 2: decreases iend + 1
+
+// head extraction: text = leftBoundary ++ tag ++ rightBoundary ++ rest (or tag = maximal run of valid characters when there
+// is no right boundary); the right boundary is searched within the first maxRange bytes only; failure gives ("", text)
+//@ func extractLabelAtStart(text string, leftBoundary string, rightBoundary string, maxRange int, validChars []bool) (string, string)
+//@   requires tableok(validChars) && maxRange >= 0 && (len(rightBoundary) > 0 || validChars != nil)
+//@   ensures[rest-is-a-suffix] arr(result.1) === arr(text) && off(result.1) + len(result.1) == off(text) + len(text) && off(result.1) >= off(text)
+//@   ensures[failure-leaves-text] len(result.0) == 0 && off(result.1) == off(text) ==> result.1 === text
+//@   ensures[left-boundary-required] len(leftBoundary) > 0 && !occ(text, 0, leftBoundary) ==> result.1 === text && len(result.0) == 0
+//@   ensures[label-inside-text] len(result.0) > 0 ==> arr(result.0) === arr(text) && off(text) + len(leftBoundary) <= off(result.0) && off(result.0) + len(result.0) + len(rightBoundary) <= off(result.1)
+//@   ensures[within-search-range] len(result.0) > 0 && len(rightBoundary) > 0 ==> off(result.1) - len(rightBoundary) - off(text) - len(leftBoundary) <= maxRange
+//@   ensures[label-trimmed] len(result.0) > 0 ==> result.0[0] > 32 && result.0[len(result.0)-1] > 32
+
+// tail extraction, mirrored: text = rest ++ leftBoundary ++ tag ++ rightBoundary; the left boundary is the LAST occurrence
+// that lies within the last maxRange bytes before the right boundary
+//@ func extractLabelAtEnd(text string, leftBoundary string, rightBoundary string, maxRange int, validChars []bool) (string, string)
+//@   requires tableok(validChars) && maxRange >= 0 && (len(leftBoundary) > 0 || validChars != nil)
+//@   ensures[rest-is-a-prefix] arr(result.1) === arr(text) && off(result.1) == off(text) && len(result.1) <= len(text)
+//@   ensures[failure-leaves-text] len(result.0) == 0 && len(result.1) == len(text) ==> result.1 === text
+//@   ensures[right-boundary-required] len(rightBoundary) > 0 && !(len(rightBoundary) <= len(text) && occ(text, len(text) - len(rightBoundary), rightBoundary)) ==> result.1 === text && len(result.0) == 0
+//@   ensures[label-inside-text] len(result.0) > 0 ==> arr(result.0) === arr(text) && off(result.1) + len(result.1) + len(leftBoundary) <= off(result.0) && off(result.0) + len(result.0) + len(rightBoundary) <= off(text) + len(text)
+//@   ensures[within-search-range] len(result.0) > 0 && len(leftBoundary) > 0 ==> len(text) - len(rightBoundary) - len(result.1) <= maxRange
+//@   ensures[boundary-at-the-window-edge-is-found] len(leftBoundary) > 0 && validChars == nil && len(result.1) == len(text) && len(result.0) == 0
+//@        && len(rightBoundary) <= len(text) && occ(text, len(text) - len(rightBoundary), rightBoundary) && len(text) - len(rightBoundary) > maxRange
+//@        ==> !occ(text[len(text) - len(rightBoundary) - maxRange : len(text) - len(rightBoundary)], 0, leftBoundary)
+//@   ensures[label-trimmed] len(result.0) > 0 ==> result.0[0] > 32 && result.0[len(result.0)-1] > 32
